@@ -115,6 +115,53 @@ def dispatch (s : State) (e : Nat) (stopped : Bool) :
     let r := doDispatch ls stopped
     return (s', r.1, r.2)
 
+/-! ### Event objects of user classes
+
+`Event` is a public base class; an application may derive its own event classes and implement
+the stop protocol itself (`stop_propagation()` / `is_propagation_stopped()` overridden: the
+state forwarded to a wrapped event, kept under another attribute, or "stopped as soon as a
+result is there").  The dispatcher may consult nothing but that public protocol.  `EvProto σ`
+is such a class with instance state `σ`; `touch` is whatever else a listener does to the event
+(e.g. count its call, store a result). -/
+
+structure EvProto (σ : Type) where
+  /-- `event.is_propagation_stopped()` -/
+  isStopped : σ → Bool
+  /-- `event.stop_propagation()` -/
+  stop : σ → σ
+  /-- what every called listener does to the event besides (possibly) stopping it -/
+  touch : σ → σ
+
+/-- `_do_dispatch` on an event of a user class: the loop asks `event.is_propagation_stopped()`
+before each listener; the listener touches the event and, if it is a stopping one, calls
+`event.stop_propagation()`. -/
+def doDispatchEv {σ : Type} (P : EvProto σ) : List Listener → σ → List Listener × σ
+  | [], s => ([], s)
+  | l :: rest, s =>
+    if P.isStopped s then ([], s)
+    else
+      let s1 := P.touch s
+      let r := doDispatchEv P rest (if l.stops then P.stop s1 else s1)
+      (l :: r.1, r.2)
+
+/-- the stock `Event`: one flag -/
+def plainEvent : EvProto Bool := { isStopped := id, stop := fun _ => true, touch := id }
+
+/-- a user event that counts as stopped once `n` listeners have seen it (every listener counts
+itself on the event) or `stop_propagation()` was called: state = (calls so far, flag) -/
+def budgetEvent (n : Nat) : EvProto (Nat × Bool) :=
+  { isStopped := fun s => s.2 || decide (n ≤ s.1), stop := fun s => (s.1, true), touch := fun s => (s.1 + 1, s.2) }
+
+/-- `dispatch(event_name, event)` with a fresh budget event of limit `n`; returns the listeners
+called and `event.is_propagation_stopped()` afterwards. -/
+def dispatchN (s : State) (e : Nat) (n : Nat) :
+    Except Err (State × List Listener × Bool) := do
+  let (s', ls) ← getListeners s e
+  if ls.isEmpty then return (s', [], (budgetEvent n).isStopped (0, false))      -- `if listeners:`
+  else
+    let r := doDispatchEv (budgetEvent n) ls (0, false)
+    return (s', r.1, (budgetEvent n).isStopped r.2)
+
 /-- `has_listeners(event_name)` with a name -/
 def hasListeners (s : State) (e : Nat) : Except Err Bool :=
   if !dictHas e s.listeners then .ok false
@@ -138,6 +185,8 @@ def getPriority (s : State) (e : Nat) (l : Listener) : Except Err (Option Int) :
 inductive Op where
   | add (e : Nat) (l : Listener) (p : Int)
   | dispatch (e : Nat) (stopped : Bool)
+  /-- dispatch of a fresh user event (`budgetEvent n`) that reports itself stopped after `n` calls -/
+  | dispatchN (e : Nat) (n : Nat)
   | hasListeners (e : Option Nat)
   | getListeners (e : Option Nat)
   | getPriority (e : Nat) (l : Listener)
@@ -155,6 +204,7 @@ inductive Out where
 def step (s : State) : Op → Except Err (State × Out)
   | .add e l p => do let s' ← addListener s e l p; return (s', .unit)
   | .dispatch e st => do let (s', c, st') ← dispatch s e st; return (s', .called c st')
+  | .dispatchN e n => do let (s', c, st') ← dispatchN s e n; return (s', .called c st')
   | .hasListeners (some e) => do let b ← hasListeners s e; return (s, .bool b)
   | .hasListeners none => .ok (s, .bool (hasAnyListeners s))
   | .getListeners (some e) => do let (s', l) ← getListeners s e; return (s', .list l)
@@ -205,6 +255,11 @@ def takeThrough {α : Type} (p : α → Bool) : List α → List α
 def callSeq (log : List Reg) (e : Nat) (stopped : Bool) : List Reg :=
   if stopped then [] else takeThrough (fun r => r.l.stops) (specOrder log e)
 
+/-- the registrations a dispatch of `e` with a fresh budget event of limit `n` must call: the
+event is stopped after the first stopping listener or after `n` calls, whichever comes first -/
+def callSeqN (log : List Reg) (e : Nat) (n : Nat) : List Reg :=
+  (callSeq log e false).take n
+
 /-- events with registrations, in order of first registration -/
 def events : List Reg → List Nat
   | [] => []
@@ -217,6 +272,9 @@ def specOut (log : List Reg) : Op → Out
   | .add _ _ _ => .unit
   | .dispatch e st =>
     .called ((callSeq log e st).map (fun r => r.l)) (st || (callSeq log e st).any (fun r => r.l.stops))
+  | .dispatchN e n =>
+    .called ((callSeqN log e n).map (fun r => r.l))
+      ((callSeqN log e n).any (fun r => r.l.stops) || decide (n ≤ (callSeqN log e n).length))
   | .hasListeners (some e) => .bool (!(regsFor log e).isEmpty)
   | .hasListeners none => .bool (!log.isEmpty)
   | .getListeners (some e) => .list ((specOrder log e).map (fun r => r.l))
